@@ -64,6 +64,18 @@ pub fn run_check(id: &str, tier: Tier) -> i32 {
 }
 
 fn confirm(ctx: &Ctx, v: &ViolationRec) -> Result<Value, MachineryError> {
+    if let Some(path) = &v.case.cli_path {
+        // CLI-only case: replay twice through the CLI with the same path spelling
+        let c1 = subject::run_cli_at(&ctx.bin, v.case.src.as_bytes(), path)?;
+        let c2 = subject::run_cli_at(&ctx.bin, v.case.src.as_bytes(), path)?;
+        if c1.code != c2.code || c1.stdout != c2.stdout || strip_tid(&c1.stderr_str()) != strip_tid(&c2.stderr_str()) {
+            return Err(MachineryError(format!("nondeterministic CLI replay of a violation ({})", v.case.src)));
+        }
+        return Ok(json!({
+            "path": path, "exit": c1.code, "signal": c1.signal,
+            "stdout": String::from_utf8_lossy(&c1.stdout), "stderr": c1.stderr_str(),
+        }));
+    }
     // replay twice in fresh workers and twice through the CLI
     let mut batch = vec![];
     for _ in 0..2 {
@@ -140,13 +152,13 @@ fn finish(ctx: &mut Ctx) -> Result<i32, MachineryError> {
     for v in &viols {
         let cli = confirm(ctx, v)?;
         ctx.cli_confirmations += 2;
-        let h = h64(&(&v.case.src, &v.clause, v.case.tag));
+        let h = h64(&(&v.case.src, &v.clause, v.case.tag, &v.case.cli_path));
         let dir = PathBuf::from(format!("{}/{}/{:016x}", FINDINGS_DIR, ctx.id, h));
         std::fs::create_dir_all(&dir).map_err(|e| MachineryError(e.to_string()))?;
         std::fs::write(dir.join("case.sd"), &v.case.src).map_err(|e| MachineryError(e.to_string()))?;
         let j = json!({
             "property": ctx.id, "tier": ctx.tier.name(), "clause": v.clause, "detail": v.detail,
-            "mode": format!("{:?}", v.case.mode), "tag": v.case.tag, "generated_by": v.case.meta,
+            "mode": format!("{:?}", v.case.mode), "tag": v.case.tag, "cli_path": v.case.cli_path, "generated_by": v.case.meta,
             "reference": v.ref_summary,
             "subject_batch": {"class": v.subject_class, "stdout": v.subject_stdout, "msg": v.subject_msg},
             "subject_cli": cli,
@@ -265,7 +277,29 @@ pub fn replay(dir: &str) -> i32 {
         meta: meta["generated_by"].as_str().unwrap_or("").to_string(),
         nontrivial: true,
         no_ref: false,
+        cli_path: meta["cli_path"].as_str().map(|s| s.to_string()),
     };
+    if let Some(path) = case.cli_path.clone() {
+        let r = eval::run(&src, REF_BUDGET);
+        let c = match subject::run_cli_at(&bin, src.as_bytes(), &path) {
+            Ok(c) => c,
+            Err(e) => return machinery(&e.0),
+        };
+        println!("reference: {}", ref_summary(&r));
+        println!("cli ({}): exit={:?} signal={:?} stdout={:?} stderr={:?}", path, c.code, c.signal, String::from_utf8_lossy(&c.stdout), c.stderr_str());
+        subject::cleanup_tmp();
+        return match check.oracle_cli(&case, &r, &c) {
+            Some(Verdict::Violation { clause, detail }) => {
+                println!("replay: {} / {}", clause, detail);
+                println!("VIOLATION property={} replay={}", id, dir);
+                1
+            }
+            _ => {
+                println!("replay: the recorded case no longer violates {} (single-case oracle)", id);
+                0
+            }
+        };
+    }
     let pool = subject::Pool::new(&bin);
     let o = match pool.run(&[Req { mode, label: "case.sd", src: &src }]) {
         Ok(o) => o.into_iter().next().unwrap(),
